@@ -14,7 +14,7 @@ ALL_OPS = ["ins", "rem", "get", "fetch", "evict_all", "hold", "gate", "close"]
 def profile(name, policy, **kw):
     p = dict(name=name, policy=policy, algo="fifo", shards=1, keys=[1, 2, 3], hash={1: 5, 2: 5, 3: 6},
              keyloc={1: "default", 2: "default", 3: "default"}, memcap=2, flush_on_close=True, tomblog=True,
-             ops=list(ALL_OPS), max_steps=5, max_ins=3, cfg=dict(mem.DEFAULT_CFG))
+             ops=list(ALL_OPS), max_steps=5, max_ins=3, bufcap=128, cfg=dict(mem.DEFAULT_CFG))
     p.update(kw)
     return p
 
@@ -56,10 +56,17 @@ def profiles_for(pid, tier):
                                 max_steps=d, max_ins=3, keyloc={1: "default", 2: "default", 3: "inmem"}))
             edge.append(profile(f"{pol}-close-noflush", pol, hash=h, ops=["ins", "get", "evict_all", "close"],
                                 max_steps=d, max_ins=3, flush_on_close=False))
+        # the flush buffer holds one entry: evictions still queued when close() is called must not push the
+        # resident set out of the buffer ("provided the resident set fits the configured flush buffer")
+        edge.append(profile("woe-close-smallbuffer", "woe", keys=[1, 2], hash={1: 5, 2: 6},
+                            keyloc={1: "default", 2: "default"}, memcap=2, bufcap=1,
+                            ops=["ins_nt", "evict_all_nt", "close", "get"], max_steps=d + 2, max_ins=3))
+        edge.append(profile("woe-close-buffer2", "woe", hash=h, memcap=3, bufcap=2,
+                            ops=["ins", "ins_nt", "evict_all_nt", "close", "get"], max_steps=d + 1, max_ins=4))
         edge.append(profile("woe-lru-close", "woe", algo="lru", memcap=9, hash=h,
                             ops=["ins", "get", "evict_all", "close"], max_steps=d))
     elif pid == "C17":
-        ops = ["ins", "rem", "get", "fetch", "evict_all", "hold", "close"]
+        ops = ["ins", "rem", "get", "sload", "fetch", "evict_all", "hold", "close"]
         for pol in ("woe", "woi"):
             edge.append(profile(f"{pol}-full-collision", pol, hash={1: 5, 2: 5, 3: 5}, ops=ops, max_steps=d))
         edge.append(profile("woe-lru-collision", "woe", algo="lru", memcap=9, hash={1: 5, 2: 5, 3: 6}, ops=ops,
@@ -80,7 +87,7 @@ def write_model(d, p, emit):
     lines = ["SPECIFICATION MCSpec", "CONSTANTS", f"  Keys = {core.tla_value(set(p['keys']))}", "  Hash <- c_Hash",
              "  KeyLoc <- c_KeyLoc", f"  MemCap = {p['memcap']}", f"  Policy = \"{p['policy']}\"",
              f"  FlushOnClose = {core.tla_value(p['flush_on_close'])}", f"  TombLog = {core.tla_value(p['tomblog'])}",
-             f"  OpSet = {core.tla_value(set(p['ops']))}", f"  MaxSteps = {p['max_steps']}",
+             f"  BufCap = {p['bufcap']}", f"  OpSet = {core.tla_value(set(p['ops']))}", f"  MaxSteps = {p['max_steps']}",
              f"  MaxIns = {p['max_ins']}", f"  Emit = {'TRUE' if emit else 'FALSE'}", "CHECK_DEADLOCK FALSE"]
     lines += ["VIEW MCView"] if emit else ["INVARIANT Inv"]
     name = "MC_emit.cfg" if emit else "MC_inv.cfg"
@@ -94,7 +101,8 @@ def harness_cfgs(d, p):
     hpath = os.path.join(d, "hcfg.json")
     with open(hpath, "w") as f:
         json.dump({"policy": p["policy"], "flush_on_close": p["flush_on_close"], "tomblog": p["tomblog"],
-                   "memcap": p["memcap"], "keyloc": {str(k): v for k, v in p["keyloc"].items()}}, f)
+                   "memcap": p["memcap"], "keyloc": {str(k): v for k, v in p["keyloc"].items()},
+                   "buffer_pages": p["bufcap"]}, f)
     return cfg, hpath
 
 
@@ -125,12 +133,12 @@ def gen_random(p, rng, num, length):
                 break
             a = rng.choice(p["ops"] + ["ins", "get", "get"])
             k = rng.choice(p["keys"])
-            if a == "ins" and "ins" in p["ops"]:
+            if a in ("ins", "ins_nt") and a in p["ops"]:
                 nins += 1
-                ops.append({"a": "ins", "k": k, "loc": p["keyloc"][k]})
-            elif a in ("rem", "get", "fetch") and a in p["ops"]:
+                ops.append({"a": a, "k": k, "loc": p["keyloc"][k]})
+            elif a in ("rem", "get", "fetch", "sload") and a in p["ops"]:
                 ops.append({"a": a, "k": k})
-            elif a == "evict_all":
+            elif a in ("evict_all", "evict_all_nt"):
                 ops.append({"a": a})
             elif a == "hold":
                 hold = not hold
@@ -179,7 +187,7 @@ def trace_check(d, p, scripts, invariant, tag, max_rounds=6):
             "SPECIFICATION TraceSpec", "CONSTANTS", f"  Keys = {core.tla_value(set(p['keys']))}", "  Hash <- c_Hash",
             "  KeyLoc <- c_KeyLoc", f"  MemCap = {p['memcap']}", f"  Policy = \"{p['policy']}\"",
             f"  FlushOnClose = {core.tla_value(p['flush_on_close'])}", f"  TombLog = {core.tla_value(p['tomblog'])}",
-            f"INVARIANT {invariant}", "POSTCONDITION Consumed", "CHECK_DEADLOCK FALSE"]) + "\n")
+            f"  BufCap = {p['bufcap']}", f"INVARIANT {invariant}", "POSTCONDITION Consumed", "CHECK_DEADLOCK FALSE"]) + "\n")
     out = []
     pending = list(scripts)
     rounds = 0
@@ -214,14 +222,17 @@ def trace_check(d, p, scripts, invariant, tag, max_rounds=6):
 
 def judge(pid, d, p, ok, cand, kind):
     violations = []
-    tool = trace_check(d, p, cand + ok, "NoToolError", kind + "_tool", max_rounds=1)
-    if tool:
-        raise core.ToolError(f"a lookup failed or did not complete in the harness: {json.dumps(tool[0])[:1500]}")
     for v in trace_check(d, p, cand + ok, f"NoViolation_{pid}", kind):
         line = v["script"][v["line_in_script"] - 1]
         violations.append({"kind": "predicate", "bad": v["bad"], "profile": p["name"],
                            "ops": [x["op"] for x in v["script"][:v["line_in_script"]]],
                            "observed": line["obs"], "op": line["op"]})
+    if not violations:
+        # a lookup that fails or never completes is not something any of these properties speaks about: unless
+        # the run also shows a violation it is reported as a tool error, never as a violation
+        tool = trace_check(d, p, cand + ok, "NoToolError", kind + "_tool", max_rounds=1)
+        if tool:
+            raise core.ToolError(f"a lookup failed or did not complete in the harness: {json.dumps(tool[0])[:1500]}")
     drift = trace_check(d, p, ok, "NoDrift", kind + "_drift", max_rounds=1)
     return violations, len(drift)
 
@@ -276,13 +287,23 @@ def check(pid, tier):
     results, violations, samples = [], [], []
     with cf.ThreadPoolExecutor(max_workers=3) as ex:
         futs = [ex.submit(run_profile, pid, tier, p, kind, base, core.seed()) for p, kind in jobs]
+        deferred = []
         for f in futs:
-            out, vs, sample = f.result()
+            try:
+                out, vs, sample = f.result()
+            except core.ToolError as e:
+                # a lookup that never completes is reported as a tool error only if no profile shows a violation
+                if "did not complete" not in str(e):
+                    raise
+                deferred.append(e)
+                continue
             results.append(out)
             violations += vs
             if len(samples) < 3:
                 samples.append(sample)
             core.log(json.dumps(out))
+        if deferred and not violations:
+            raise deferred[0]
     return memcheck.finish(pid, tier, t0, results, violations, samples, rule=(
         "one driver script per edge of the reachable graph of each bounded MC_Hybrid model (insert with placement "
         "advice, remove, get, get_or_fetch, evict_all, flush hold/release, device-write gate, close, reopen), executed "
@@ -335,13 +356,24 @@ def check_c17(tier):
     results, violations, samples = [], [], []
     medge, msim = memcheck.profiles_for("C17", tier)
     hedge, hrand = profiles_for("C17", tier)
+    from . import inflightcheck
+    iedge, irand = inflightcheck.profiles_for("C17", tier)
     with cf.ThreadPoolExecutor(max_workers=4) as ex:
         futs = [(ex.submit(memcheck.run_profile, "C17", tier, p, kind, base, core.seed(), 3), "mem")
                 for p, kind in [(p, "edge") for p in medge] + [(p, "rand") for p in msim]]
         futs += [(ex.submit(run_profile, "C17", tier, p, kind, base, core.seed()), "hybrid")
                  for p, kind in [(p, "edge") for p in hedge] + [(p, "rand") for p in hrand]]
+        futs += [(ex.submit(inflightcheck.run_profile, "C17", tier, p, kind, base, core.seed()), "inflight")
+                 for p, kind in [(p, "edge") for p in iedge] + [(p, "rand") for p in irand]]
+        deferred = []
         for f, eng in futs:
-            out, vs, sample = f.result()
+            try:
+                out, vs, sample = f.result()
+            except core.ToolError as e:
+                if "did not complete" not in str(e):
+                    raise
+                deferred.append(e)
+                continue
             out["engine"] = eng
             for v in vs:
                 v["engine"] = eng
@@ -350,6 +382,8 @@ def check_c17(tier):
             if sample and len(samples) < 4:
                 samples.append(sample)
             core.log(json.dumps(out))
+        if deferred and not violations:
+            raise deferred[0]
     return memcheck.finish("C17", tier, t0, results, violations, samples, rule=(
         "memory part: edges of bounded MC_MemCache models with non-injective Hash (full collisions and same-shard "
         "collisions) replayed on a Cache built with a colliding user hasher, plus random runs validated by TLC "
